@@ -77,6 +77,13 @@ class OrderInfer(ast.NodeVisitor):
             if isinstance(fn, ast.Attribute) and fn.attr == "get" and len(e.args) == 2 and self.is_set(e.args[1]):
                 return True
         if isinstance(e, ast.BinOp) and isinstance(e.op, (ast.BitOr, ast.BitAnd, ast.Sub, ast.BitXor)):
+            # set algebra on sets, and on dict key/item views (d.keys() | other is a plain set)
+            def view(x):
+                return isinstance(x, ast.Call) and isinstance(x.func, ast.Attribute) and x.func.attr in ("keys", "items") and not x.args
+
+            if view(e.left) or view(e.right):
+                # dict | dict (PEP 584) is a dict merge, not a set: both sides must not be plain names of dicts
+                return True
             return self.is_set(e.left) or self.is_set(e.right)
         if isinstance(e, ast.Name):
             return self.env.get(e.id) == "set"
@@ -92,7 +99,11 @@ class OrderInfer(ast.NodeVisitor):
 
     def is_tdict(self, e):
         if isinstance(e, ast.DictComp):
-            return any(self.is_set(g.iter) for g in e.generators)
+            return any(self.unordered(g.iter) for g in e.generators)
+        if isinstance(e, ast.Call) and u(e.func) in ("dict.fromkeys", "dict", "OrderedDict", "collections.OrderedDict") and e.args and self.unordered(e.args[0]):
+            return True
+        if isinstance(e, ast.Call) and u(e.func) == "dict" and e.args and isinstance(e.args[0], ast.Call) and u(e.args[0].func) == "zip" and any(self.unordered(a) for a in e.args[0].args):
+            return True
         if isinstance(e, ast.Name):
             return self.env.get(e.id) == "tdict"
         if isinstance(e, ast.Call):
